@@ -7,7 +7,9 @@ ASSUMPTIONS = [
     "the generator is driven through a scripted subclass of cryptorandom.SHA256 (harness/tape.py): requests are answered lazily and logged; the same answers are replayed for the keep_dist twin",
     "data are exactly representable (small integers times group-size products times powers of two, optional large offsets), so named float statistics are exact; 't'-type statistics are black boxes checked through dist",
     "SHA-256 / Mersenne-Twister output is assumed uniform; condition.argsort() is an oracle input of the model"]
-oracle = AR.filtered_oracle(['irreproducible', 'int-vs-sha256', 'randomstate-replay', 'global-rng', 'keepdist-draws', 'draws-depend-on-data', 'contract'])
+oracle = AR.filtered_oracle(['irreproducible', 'int-vs-sha256', 'randomstate-replay', 'global-rng', 'keepdist-draws', 'draws-depend-on-data', 'contract',
+                            # a simulated value that is not the documented statistic of the rearrangement SELECTED BY THE DRAWS: the rearrangement depends on the statistic
+                            'stat-option', 'wrong-rearrangement'])
 
 
 def cases(tier, rng, dist):
